@@ -36,7 +36,7 @@ const (
 	hEOFRows
 	hWrappedEOF
 	hError
-	hNilBlank // reset the columns and return nil: a round without rows
+	hNilBlank  // reset the columns and return nil: a round without rows
 	hOverwrite // overwrite the rows in place (same row count, no Reset) through the columns' exported memory
 )
 
